@@ -133,10 +133,15 @@ CHECKS = {
               "overdue (C12_loop_yields_partial; the excluded case is the known finding D19, refutation proved); after an "
               "unsubscribe call returns nothing is routed, held or outstanding, the renewal task has ended and no request is "
               "ever sent, unless the call started during an in-flight renewal (C12_clean_shutdown_partial; D20, refutation proved). "
-              "The clauses kept_alive (no lapse while the publisher keeps granting) and failure_reported have NO theorem yet: "
-              "they are executable clauses evaluated in Coq on the implementation's observations only. The model is compared "
+              "kept_alive (C12_kept_alive): on every schedule of the domain satisfying lapse_premise (automatic renewal requested; no "
+              "subscribe call or renewal pass waited more than the 60 s tolerance for its responses; every granted timeout "
+              "exceeds the tolerance plus that longest wait) every SID the profile holds is unexpired at the publisher at "
+              "every step and the publisher never accepted a renewal of a subscription it had expired. failure_reported "
+              "(C12_failure_reported): the on_event(service, []) calls are always a prefix, in delivery order, of the failed "
+              "renewals; the device is unavailable only if one of them was 'unreachable'; whenever the loop is idle with no "
+              "unsubscribe call made every failure has been reported exactly once. The model is compared "
               "with the real coroutines after every action of every generated schedule (virtual-time loop, scripted publisher)."),
-        technique="Coq proof by a structural invariant over a hand-inlined asyncio transition system (three of five clauses; two of them partial outside known-finding guards) + executable clauses for the rest + differential correspondence in a virtual-time asyncio loop",
+        technique="Coq proof by structural, wake and timing invariants (induction over schedules) over a hand-inlined asyncio transition system, all five clauses (two partial outside the known-finding guards D19/D20, refutations proved) + differential correspondence in a virtual-time asyncio loop",
         design="§4 C12, §11.3",
     ),
     "C13": dict(
